@@ -1179,6 +1179,26 @@ func alnIllTyped(r *obs.Run) {
 			run()
 		}
 	case 4: // ragged or otherwise non-square matrix
+		if rng.Intn(4) == 0 { // a matrix with rows to spare (allowed when square) whose ragged row is one of the spare ones
+			n := aa.a.Len() + 1 + rng.Intn(3)
+			M = alnRandomMatrix(rng, n)
+			row := aa.a.Len() + rng.Intn(n-aa.a.Len())
+			if rng.Intn(2) == 0 {
+				M[row] = M[row][:len(M[row])-1-rng.Intn(2)]
+			} else {
+				M[row] = append(append([]int(nil), M[row]...), 0)
+			}
+			desc = fmt.Sprintf("ragged matrix of %d rows for %d letters (spare row %d has %d entries)", n, aa.a.Len(), row, len(M[row]))
+			qm := rng.Intn(2) == 0
+			ref, query = alnMkSeq(x, aa.a, qm, rng), alnMkSeq(y, aa.a, qm, rng)
+			r.Count("nonsquare_matrices", 1)
+			r.Count("oversize_matrices_with_a_ragged_spare_row", 1)
+			for _, a := range alnAlgs {
+				alg = a
+				run()
+			}
+			break
+		}
 		row := rng.Intn(len(M))
 		if rng.Intn(2) == 0 { // the matrix object was used, well-formed, just before
 			for _, a := range alnAlgs {
